@@ -50,6 +50,67 @@ def h_unchanged(ctx, opname, D, P, layout='C'):
             ctx.eq(plain(o), np.asarray(r, dtype=object), 'constant argument %d unchanged by %s' % (k, opname))
 
 
+def h_pb_rule(ctx, opname, D, P):
+    """the reverse rule of one operation, run the way the tracer runs it but with the caller's own
+    seed object as the adjoint of the result (the low-level call UTPM.pb_f(ybar, x, y, out=...)):
+    the seed, the operands and the result are left unchanged"""
+    algopy = symx.load_algopy()
+    op = O.by_name()[opname]
+    raw = [O.make_input(ctx, a, 'a%d' % k, D, P) for k, a in enumerate(op.args)]
+    if 'neq' in op.tags:
+        for idx in np.ndindex(*raw[0][0].shape):
+            ctx.assume(raw[0][0][idx] != raw[1][0][idx])
+    if 'distinct' in op.tags:
+        z = raw[0][0]
+        for p_ in range(z.shape[0]):
+            for i in range(z.shape[1]):
+                for j in range(i):
+                    ctx.assume(z[p_, i] != z[p_, j])
+    objs = [O.wrap(ctx, algopy, a, r) for a, r in zip(op.args, raw)]
+    cg = algopy.CGraph()
+    fobjs = [algopy.Function(o) if a.kind == 'utpm' else o for a, o in zip(op.args, objs)]
+    try:
+        fy = op.fn(algopy, *fobjs)
+    except Exception as e:
+        if type(e).__name__ in ('Inconclusive', 'PathAbort'):
+            raise
+        ctx.fact(True, 'not traceable: %s' % type(e).__name__)
+        ctx.eq(S.const(0) if ctx.mode == 'sym' else 0.0, S.const(0) if ctx.mode == 'sym' else 0.0, 'nothing to run')
+        return
+    cg.trace_off()
+    if not isinstance(fy, algopy.Function) or not isinstance(fy.x, algopy.UTPM):
+        ctx.fact(True, 'no single polynomial result')
+        ctx.eq(S.const(0) if ctx.mode == 'sym' else 0.0, S.const(0) if ctx.mode == 'sym' else 0.0, 'nothing to run')
+        return
+    Y = plain(fy.x.data).copy()
+    for f in cg.functionList:
+        f.xbar_from_x()
+    YB = np.empty(Y.shape, dtype=object)
+    for idx in np.ndindex(*Y.shape):
+        YB[idx] = ctx.var('ybar%s' % list(idx))
+    seed = O.wrap(ctx, algopy, O.Arg('utpm', Y.shape[2:]), YB)
+    fy.xbar = seed
+    try:
+        for f in cg.functionList[::-1]:
+            if f is fy or any(f is a for a in fobjs):
+                algopy.Function.pullback(f)
+    except NotImplementedError as e:
+        ctx.fact(True, 'no reverse rule: %s' % str(e)[:60])
+        return
+    except AttributeError as e:
+        if "has no attribute 'pb_" not in str(e):
+            raise
+        ctx.fact(True, 'no reverse rule: %s' % str(e)[:60])
+        return
+    ctx.eq(plain(seed.data), YB, 'seed unchanged by the reverse rule of %s' % opname)
+    ctx.eq(plain(fy.x.data), Y, 'result unchanged by the reverse rule of %s' % opname)
+    for k, (a, r, o) in enumerate(zip(op.args, raw, objs)):
+        if a.kind == 'utpm':
+            ctx.eq(plain(o.data), np.asarray(r, dtype=object), 'argument %d unchanged by the reverse rule of %s' % (k, opname))
+        elif a.kind == 'ndarray':
+            ctx.eq(plain(o), np.asarray(r, dtype=object), 'constant argument %d unchanged by the reverse rule of %s' % (k, opname))
+
+
 BIN = {'add': operator.add, 'sub': operator.sub, 'mul': operator.mul, 'div': operator.truediv}
 IBIN = {'add': operator.iadd, 'sub': operator.isub, 'mul': operator.imul, 'div': operator.itruediv}
 
@@ -274,6 +335,9 @@ def units(tier, seed):
             add('unchanged/%s/D9,P1' % op.name, 'h_unchanged', opname=op.name, D=9, P=1)
             if op.group != 'kink':      # (one branch per element and direction)
                 add('unchanged/%s/D2,P5' % op.name, 'h_unchanged', opname=op.name, D=2, P=5)
+    for op in O.catalogue():
+        if op.group != 'kink' and 'setitem' not in op.tags and not op.name.startswith('y['):
+            add('reverse rule leaves seed, operands and result unchanged/%s/D2,P2' % op.name, 'h_pb_rule', opname=op.name, D=2, P=2)
     for op in O.catalogue():
         if any(len(a.shape) >= 2 for a in op.args):
             # matrices in Fortran order: the layout LAPACK/scipy wrappers overwrite in place
